@@ -74,13 +74,20 @@ class _NoParents(object):
 
 
 def _strip_parents(node):
-    import copy
-    memo = {}
-    p = getattr(node, "_parent", None)
-    if p is not None:
-        memo[id(p)] = None  # the link out of the subtree is cut, the links inside it are copied
-    clone = copy.deepcopy(node, memo)
-    return clone
+    """structural copy of an AST subtree without the analysis attributes hung on the nodes (parent links, function and
+    scope infos): a deepcopy would drag the whole program along through them"""
+    if isinstance(node, list):
+        return [_strip_parents(x) for x in node]
+    if not isinstance(node, ast.AST):
+        return node
+    new = type(node)()
+    for f in node._fields:
+        if hasattr(node, f):
+            setattr(new, f, _strip_parents(getattr(node, f)))
+    for a in ("lineno", "col_offset", "end_lineno", "end_col_offset"):
+        if hasattr(node, a):
+            setattr(new, a, getattr(node, a))
+    return new
 
 
 class Program(object):
@@ -92,6 +99,7 @@ class Program(object):
         self._index()
         from sa import cfg as _cfg
         _cfg.PRED_INLINER = self.inline_pred
+        _cfg.PRED_SUMMARY = self.pred_paths
 
     # ------------------------------------------------------------------ loading
     def _load(self):
@@ -385,12 +393,12 @@ class Program(object):
                     class Sub(ast.NodeTransformer):
                         def visit_Name(self_, n):
                             if n.id in bind and isinstance(n.ctx, ast.Load):
-                                return copy.deepcopy(_strip_parents(bind[n.id]))
+                                return _strip_parents(bind[n.id])
                             return n
 
                         def visit_Lambda(self_, n):
                             return n
-                    expr = Sub().visit(copy.deepcopy(_strip_parents(body[0].value)))
+                    expr = Sub().visit(_strip_parents(body[0].value))
                     for x in ast.walk(expr):
                         ast.copy_location(x, call)
                         for ch in ast.iter_child_nodes(x):
@@ -398,6 +406,85 @@ class Program(object):
                     expr._parent = getattr(call, "_parent", None)
                     expr._inlined_from = call
                     out = expr
+        cache[key] = (call, out)
+        return out
+
+    def pred_paths(self, call, polarity):
+        """`helper(args)` used as a condition, where helper is a multi-statement package function: for each path of the
+        helper on which its result can have truth value `polarity`, the atomic facts that hold on that path (branch
+        conditions passed, and the returned expression itself having that truth value), with the helper's parameters
+        replaced by the call's arguments.  None when the callee is not analysable.  A disjunctive summary: the caller
+        knows that one of the alternatives holds."""
+        key = (id(call), bool(polarity))
+        cache = self.__dict__.setdefault("_predpaths_cache", {})
+        if key in cache and cache[key][0] is call:
+            return cache[key][1]
+        out = None
+        depth = self.__dict__.get("_predpaths_depth", 0)
+        try:
+            tg = [t for t in self.resolve_expr_fn(call.func, call) if isinstance(t, FunctionInfo)] if isinstance(call.func, (ast.Name, ast.Attribute)) else []
+        except AnalysisError:
+            tg = []
+        if depth < 2 and len(tg) == 1 and isinstance(tg[0].node, ast.FunctionDef) and self.inline_pred(call) is None:
+            fd = tg[0].node
+            a = fd.args
+            if a.vararg is None and a.kwarg is None and not any(isinstance(x, ast.Starred) for x in call.args) and all(k.arg for k in call.keywords):
+                from sa import cfg as _cfg
+                self.__dict__["_predpaths_depth"] = depth + 1
+                try:
+                    try:
+                        paths = _cfg.CFG(fd).paths(limit=600)
+                    except RuntimeError:
+                        paths = None
+                    if paths is not None:
+                        pn = [x.arg for x in a.posonlyargs + a.args]
+                        is_method = isinstance(getattr(fd, "_parent", None), ast.ClassDef) and pn and pn[0] in ("self", "cls") and isinstance(call.func, ast.Attribute)
+                        bind = {}
+                        names_ = pn[1:] if is_method else pn
+                        if is_method:
+                            bind[pn[0]] = call.func.value
+                        for nme, v in zip(names_, call.args):
+                            bind[nme] = v
+                        for k in call.keywords:
+                            bind[k.arg] = k.value
+                        rebound = {n_.id for n_ in ast.walk(fd) if isinstance(n_, ast.Name) and isinstance(n_.ctx, (ast.Store, ast.Del))}
+                        import copy
+
+                        class Sub(ast.NodeTransformer):
+                            def visit_Name(self_, n):
+                                if n.id in bind and n.id not in rebound and isinstance(n.ctx, ast.Load):
+                                    return _strip_parents(bind[n.id])
+                                return n
+
+                        def subst(atom):
+                            e = Sub().visit(_strip_parents(atom))
+                            for x in ast.walk(e):
+                                ast.copy_location(x, call)
+                                for ch in ast.iter_child_nodes(x):
+                                    ch._parent = x
+                            e._parent = getattr(call, "_parent", None)
+                            e._from_helper = tg[0].qualname
+                            return e
+                        alts = []
+                        for path in paths:
+                            if path[-1][0].kind != "RETURN":
+                                continue
+                            rets = [n_.stmt for n_, _ in path if n_.kind == "return"]
+                            rv = rets[-1].value if rets else None
+                            lit = None
+                            if rv is None:
+                                lit = False
+                            elif isinstance(rv, ast.Constant):
+                                lit = bool(rv.value)
+                            if lit is not None and lit != bool(polarity):
+                                continue
+                            fs = list(_cfg.path_facts(path))
+                            if lit is None:
+                                fs += _cfg.facts(rv, bool(polarity))
+                            alts.append([(subst(at), pl) for at, pl in fs])
+                        out = alts
+                finally:
+                    self.__dict__["_predpaths_depth"] = depth
         cache[key] = (call, out)
         return out
 
